@@ -161,6 +161,11 @@ func (v *autoEscapeVisitor) Leave(n parse.Node) {
 }
 
 func (v *autoEscapeVisitor) guessTypeFromName(name string) string {
+	if strings.Contains(name, "{{") || strings.Contains(name, "{%") {
+		// An inline template (StringLoader) is named by its own source: what
+		// its text happens to end in is not a file extension.
+		return "html"
+	}
 	name = strings.TrimSuffix(name, ".twig")
 	p := strings.LastIndex(name, ".")
 	if p < 0 {
